@@ -15,11 +15,16 @@ PLACEMENTS = ["named", "tuple", "enum"]
 
 def item_for(combo, placement, name="Ty"):
     attrs = " ".join(M.render_attrs(combo, KEY, BY))
+    # the attributed field is the first, the middle or the last one, depending on the combination
+    pos = (hash(combo) & 0xFFFF) % 3 if False else sum(len(o) for o in combo) % 3
+    a = [attrs if i == pos else "" for i in range(3)]
     if placement == "named":
-        return f"struct {name} {{ {attrs} f0: ::dxrt::V, f1: ::dxrt::V }}"
+        return f"struct {name} {{ {a[0]} f0: ::dxrt::V, {a[1]} f1: ::dxrt::V, {a[2]} f2: ::dxrt::V }}"
     if placement == "tuple":
-        return f"struct {name}({attrs} ::dxrt::V, ::dxrt::V);"
-    return f"enum {name} {{ V0 {{ {attrs} f0: ::dxrt::V, f1: ::dxrt::V }}, V1 }}"
+        return f"struct {name}({a[0]} ::dxrt::V, {a[1]} ::dxrt::V, {a[2]} ::dxrt::V);"
+    if pos == 2:
+        return f"enum {name} {{ V1, V0({a[0]} ::dxrt::V, {a[1]} ::dxrt::V, {a[2]} ::dxrt::V) }}"
+    return f"enum {name} {{ V0 {{ {a[0]} f0: ::dxrt::V, {a[1]} f1: ::dxrt::V, {a[2]} f2: ::dxrt::V }}, V1 }}"
 
 
 def request(idx, combo, placement, entry, traits=ALL5):
